@@ -216,6 +216,7 @@ def _expand_partial_output(partial, sl_map, output_unroll_info):
     if not partial.struct.t:
         return partial  # empty tensor: nothing to expand
 
+    partial = partial.consume_transpose()  # blocks are read below in the native order
     config = partial.config
     backend = config.backend
     nsym = config.sym.NSYM
@@ -223,7 +224,7 @@ def _expand_partial_output(partial, sl_map, output_unroll_info):
     dtype = partial.yastn_dtype
     device = partial.device
 
-    expanded = Tensor(config=config, s=partial.struct.s, n=partial.struct.n)
+    expanded = Tensor(config=config, s=partial.struct.s, n=partial.struct.n, mfs=partial.mfs, hfs=partial.hfs)
 
     for i, block_ct in enumerate(partial.struct.t):
         # Slice block data in the native backend format (no numpy conversion)
